@@ -145,7 +145,7 @@ class SqliteWorkflowStore(
         from stabilize.persistence.sqlite.transaction import AtomicTransaction
 
         conn = self._get_connection()
-        txn = AtomicTransaction(conn, self)
+        txn = AtomicTransaction(conn, self, queue_max_attempts=getattr(queue, "max_attempts", None))
         # Bind a thread-local scope so event recording inside this block
         # joins the transaction (same-database event stores) and bus
         # publication is deferred until after commit.
